@@ -206,6 +206,14 @@ func famC19(r *Run) {
 		if ok {
 			if code != 0 {
 				r.violate("G-cli", expr, doc, "valid expression and input, but jpgo exits with a non-zero status", desc)
+			} else if modeFor(expr, data) != "exact" {
+				// the result exposes the iteration order of an object, which differs
+				// between two processes: compare up to the order of array elements
+				var back interface{}
+				if err := json.Unmarshal([]byte(stdout), &back); err != nil ||
+					canon(Obs{Kind: "val", Value: back}, true) != canon(Obs{Kind: "val", Value: lib.Value}, true) {
+					r.violate("G-cli", expr, doc, "jpgo's output does not decode to the library's result (up to object iteration order)", desc)
+				}
 			} else if stdout != string(want)+"\n" {
 				r.violate("G-cli", expr, doc, "jpgo's output is not the JSON serialisation of the library's result", desc+" want="+string(want))
 			} else {
@@ -225,12 +233,24 @@ func famC19(r *Run) {
 		if inputErr == nil {
 			r.addSearch("G-cli", expr, data, modeFor(expr, data))
 		}
+		// the model of run() on the same command line and input bytes (when the
+		// result does not expose the iteration order of an object)
+		if (inputErr != nil || modeFor(expr, data) == "exact") && modelable(expr, data) {
+			in := input
+			r.addCli("G-cli-model", []string{expr}, viaFile, &in, code, stdout)
+		}
 	}
 	// usage errors and unreadable file
 	for _, a := range [][]string{{}, {"a", "b"}, {"-input", filepath.Join(dir, "missing.json"), "a"}} {
 		stdout, _, code := runJpgo(bin, a, "{}")
 		if code == 0 || stdout != "" {
 			r.violate("G-cli", strings.Join(a, " "), nil, "usage error or unreadable file: expected a non-zero status and nothing on standard output", fmt.Sprintf("exit=%d stdout=%q", code, stdout))
+		}
+		if len(a) == 3 {
+			r.addCli("G-cli-model", a[2:], true, nil, code, stdout)
+		} else {
+			in := "{}"
+			r.addCli("G-cli-model", a, false, &in, code, stdout)
 		}
 	}
 }
